@@ -328,6 +328,21 @@ func (s *Server) serveOne(ctx context.Context, r io.Reader, w io.Writer, shmConn
 	// Dispatch based on method type
 	var handlerErr error
 	var transportErr error
+
+	// Hook end (panic-safe). Deferred so that it runs on every exit of the
+	// dispatch, including a panic that escapes the handlers' own recovers.
+	defer func() {
+		if !hookActive {
+			return
+		}
+		defer func() {
+			if rv := recover(); rv != nil {
+				slog.Error("dispatch hook end panic", "err", rv)
+			}
+		}()
+		s.dispatchHook.OnDispatchEnd(ctx, hookToken, dispatchInfo, stats, handlerErr)
+	}()
+
 	switch info.Type {
 	case MethodUnary:
 		handlerErr, transportErr = s.serveUnary(ctx, w, req, info, stats)
@@ -337,18 +352,6 @@ func (s *Server) serveOne(ctx context.Context, r io.Reader, w io.Writer, shmConn
 		s.logIPCWriteErr("error-response", req.Method, writeErrorResponse(w, info.ResultSchema,
 			fmt.Errorf("method type %d not yet implemented", info.Type),
 			s.serverID, req.RequestID, s.debugErrors))
-	}
-
-	// Hook end (panic-safe)
-	if hookActive {
-		func() {
-			defer func() {
-				if rv := recover(); rv != nil {
-					slog.Error("dispatch hook end panic", "err", rv)
-				}
-			}()
-			s.dispatchHook.OnDispatchEnd(ctx, hookToken, dispatchInfo, stats, handlerErr)
-		}()
 	}
 
 	return transportErr
